@@ -383,9 +383,30 @@ class Exec:
     def run(s, fname, args, st):
         s.ctr = itertools.count()
         return list(s.call(fname, args, st, 0))
+    def intrinsic(s, fname, args):
+        """pure integer intrinsics clang emits for std::min/max, saturating and overflow-checked arithmetic"""
+        m = re.match(r'^@llvm\.(umax|umin|smax|smin|usub\.sat|uadd\.sat|abs|uadd\.with\.overflow|usub\.with\.overflow|umul\.with\.overflow)\.i(\d+)$', fname)
+        if not m: return None
+        op, bits = m.group(1), int(m.group(2)); a = args[0]; b = args[1] if len(args) > 1 else None
+        if op == 'umax': return z3.If(z3.UGT(a, b), a, b)
+        if op == 'umin': return z3.If(z3.ULT(a, b), a, b)
+        if op == 'smax': return z3.If(a > b, a, b)
+        if op == 'smin': return z3.If(a < b, a, b)
+        if op == 'usub.sat': return z3.If(z3.UGE(a, b), a - b, bv(0, bits))
+        if op == 'uadd.sat': return z3.If(z3.ULT(a + b, a), bv((1 << bits) - 1, bits), a + b)
+        if op == 'abs': return z3.If(a < 0, -a, a)
+        if op == 'uadd.with.overflow': return [a + b, z3.If(z3.ULT(a + b, a), bv(1, 1), bv(0, 1))]
+        if op == 'usub.with.overflow': return [a - b, z3.If(z3.ULT(a, b), bv(1, 1), bv(0, 1))]
+        if op == 'umul.with.overflow':
+            w = z3.ZeroExt(bits, a) * z3.ZeroExt(bits, b)
+            return [a * b, z3.If(z3.Extract(2 * bits - 1, bits, w) != 0, bv(1, 1), bv(0, 1))]
     def call(s, fname, args, st, depth):
         if fname in s.summaries:
             yield from s.summaries[fname](s, args, st); return
+        if fname.startswith('@llvm.'):
+            r = s.intrinsic(fname, args)
+            if r is not None:
+                yield Outcome('ret', [z3.simplify(x) for x in r] if isinstance(r, list) else z3.simplify(r), st); return
         f = s.M.funcs.get(fname)
         if f is None: raise EngineError('no model for external %s' % fname)
         env = {pn: a for (pn, _), a in zip(f['params'], args)}
